@@ -121,6 +121,17 @@ def run_config(chk, config):
             return e2, e2.analyse(f["key"], args=[VRef(("obj", "self"))], state=st, name="Flags::%s" % item), D
         e2, r2, D = run_acc("reserved_bits_ok")
         if chk.require_anchor(r2 is not None, "Flags::reserved_bits_ok"):
+            # a result returned as an undecided formula is decided by a case split on it
+            split = []
+            for s, v in r2:
+                if isinstance(v, VBool) and e2.bool_value(s, v.f) is None:
+                    for s3 in e2.assume(s.fork(), v.f, True):
+                        split.append((s3, TRUE))
+                    for s3 in e2.assume(s.fork(), v.f, False):
+                        split.append((s3, FALSE))
+                else:
+                    split.append((s, v))
+            r2 = split
             bits = set()
             ok_true = False
             for s, v in r2:
